@@ -2,8 +2,8 @@
 import os, json, subprocess, time
 from . import build, config, coqside, sx, report
 
-MAX_KEEP_PER_OP = 40     # mismatches kept for analysis per operation (all are counted)
-MAX_ANALYSE = 25        # analysed per operation
+MAX_KEEP_PER_OP = 20     # differences kept for analysis per (operation, verdict class); all are counted
+MAX_ANALYSE = 12        # analysed per (operation, verdict class)
 
 
 def pipeline(ctx, harness_cmd, drv, stdin_data=None):
@@ -31,9 +31,10 @@ def pipeline(ctx, harness_cmd, drv, stdin_data=None):
             f = line.split('\t')
             if len(f) >= 7:
                 # keep a bounded number per operation, so that a flood of one kind does not hide the others
-                k = per_op.get(f[2], 0)
+                key = f[2] + ':' + (f[6].split() or ['?'])[0]
+                k = per_op.get(key, 0)
                 if k < MAX_KEEP_PER_OP:
-                    per_op[f[2]] = k + 1
+                    per_op[key] = k + 1
                     mism.append(dict(op=f[2], args=f[3], real=f[4], model=f[5], verdict=f[6]))
         elif line.startswith('SUMMARY\t'):
             summary = json.loads(line.split('\t', 1)[1])
@@ -175,9 +176,10 @@ def analyse(ctx, spec, hbin, drv, mism, extra=()):
     seen_per_op = {}
     selected = []
     for m in mism:
-        k = seen_per_op.get(m['op'], 0)
+        key = m['op'] + ':' + (m['verdict'].split() or ['?'])[0]
+        k = seen_per_op.get(key, 0)
         if k < MAX_ANALYSE:
-            seen_per_op[m['op']] = k + 1
+            seen_per_op[key] = k + 1
             selected.append(m)
     for m in selected:
         case = dict(m)
